@@ -342,11 +342,32 @@ def b_scene(case, ctx):
         elif k == "add":
             s2, ref2, geoms2 = build_scene(case["spec2"])
             st2 = scene_state(s2)
-            c = s + s2
+            how = op[1] if len(op) > 1 else "plus"
             T2, _ = placed_tris(ref2, geoms2)
-            ok, msg = same_tris(c.triangles, np.vstack((T0, T2)), max(scale, np.abs(T2).max() if len(T2) else 1.0))
-            check(ok, "C10|add|triangles", msg)
-            check(scene_state(s2) == st2, "C10|add|modified_right_operand", "")
+            parts = [T0, T2]
+            if how == "plus":
+                c = s + s2
+            elif how == "append2":
+                c = trimesh.scene.scene.append_scenes([s, s2])
+            else:
+                # a third (and fourth) operand with the same node and geometry names as the second
+                s3 = build_scene(case["spec2"])[0]
+                parts.append(T2)
+                if how == "chain3":
+                    c = s + s2 + s3
+                elif how == "append3":
+                    c = trimesh.scene.scene.append_scenes([s, s2, s3])
+                else:
+                    s4 = build_scene(case["spec"])[0]
+                    parts.append(T0)
+                    c = trimesh.scene.scene.append_scenes([s, s2, s3, s4])
+            want = np.vstack(parts)
+            ok, msg = same_tris(c.triangles, want, max(scale, np.abs(T2).max() if len(T2) else 1.0))
+            check(ok, f"C10|add|{how}|triangles", msg)
+            n_inst = len(ref.instances()) * (2 if how == "append4" else 1) + len(ref2.instances()) * (1 if how in ("plus", "append2") else 2)
+            check(len(c.graph.nodes_geometry) == n_inst, f"C10|add|{how}|instance_count", f"{len(c.graph.nodes_geometry)} instances in the sum, operands hold {n_inst}")
+            check(scene_state(s2) == st2, f"C10|add|modified_right_operand", "")
+            ctx.note(nontrivial=True, cls=f"add:{how}")
         elif k in ("rezero", "apply_transform"):
             # in-place operations
             if k == "rezero":
@@ -434,7 +455,7 @@ def scene_spec(draw, sim=True):
         if abs(np.linalg.det(M[:3, :3]) - 1) > 1e-6:
             s = abs(np.linalg.det(M[:3, :3])) ** (1 / 3)
             M[:3, :3] *= draw(st.sampled_from([0.5, 2.0, 3.0])) / s
-        nodes.append({"parent": draw(st.one_of(st.none(), st.integers(0, 6))), "M": M.tolist(), "geom": draw(st.one_of(st.none(), st.sampled_from(geom_pool), st.sampled_from(geom_pool)))})
+        nodes.append({"parent": draw(st.one_of(st.none(), st.integers(0, 6), st.integers(0, max(i - 1, 0)))), "M": M.tolist(), "geom": draw(st.one_of(st.none(), st.sampled_from(geom_pool), st.sampled_from(geom_pool)))})
     if not any(nd["geom"] for nd in nodes):
         nodes[-1]["geom"] = geom_pool[0]
     return {"nodes": nodes}
@@ -451,7 +472,7 @@ def scene_case(draw):
     elif k == "subscene":
         case["op"] = ["subscene", draw(st.integers(0, 6))]
     elif k == "add":
-        case["op"] = ["add"]
+        case["op"] = ["add", draw(st.sampled_from(["plus", "append2", "chain3", "append3", "append4"]))]
         case["spec2"] = draw(scene_spec())
     elif k == "apply_transform":
         case["op"] = ["apply_transform", draw(gm.matrix(classes=["rigid", "similarity", "translation", "mirror", "anisotropic"], tscale=5.0))]
@@ -495,7 +516,7 @@ def fixed_cases():
         {"parent": 4, "M": R.tolist(), "geom": "prism"},
     ]}
     spec_rigid = {"nodes": [dict(n, M=(np.array(n["M"]) if i != 2 else T1).tolist() if i == 2 else n["M"]) for i, n in enumerate(spec["nodes"])]}
-    ops = [["none"], ["copy"], ["scaled", 2.0], ["scaled", 0.5], ["scaled", [1.0, 2.0, 3.0]], ["scaled", [2.0, 2.0, 2.0]], ["convert_units"], ["rezero"], ["add"]]
+    ops = [["none"], ["copy"], ["scaled", 2.0], ["scaled", 0.5], ["scaled", [1.0, 2.0, 3.0]], ["scaled", [2.0, 2.0, 2.0]], ["convert_units"], ["rezero"], ["add"], ["add", "append3"], ["add", "chain3"], ["add", "append4"]]
     ops += [["subscene", i] for i in range(6)]
     H = np.eye(4)
     H[:3, :3] = gm.householder([1, 1, 0])
